@@ -34,6 +34,8 @@ Inductive vcase :=
            (raised : option Z) (hdr : option ver) (classes : list gclass)
 | CSession (v : ver) (known : bool) (hdr_reject : option Z) (stop : bool) (items : list (Z * bool))
            (hdr : ver) (err : option Z) (classes : list gclass)
+| CSessionF (v : ver) (known : bool) (fault : session_fault) (hdr_reject : option Z) (stop : bool) (items : list (Z * bool))
+            (hdr : ver) (err : option Z) (classes : list gclass)
 | CQuery (v : ver) (ops : list Z)
 | CDiscover (client answer : list ver)
 | CTemplate (v : ver) (items : list tmpl_item) (observed : tmpl_result)
@@ -66,6 +68,15 @@ Definition check_vcase (c : vcase) : bool :=
   | CSession v known hr stop items hdr err classes =>
       let req := Build_request v hr stop (k_items items) in
       let '(_, r, _) := session_handle unit bool k_handler (fun _ => known) req tt in
+      match r with
+      | WireError hv reason => ver_eqb hdr hv && opt_eqb Z.eqb err (Some reason) && list_eqb gclass_eqb classes []
+      | WireMessage hv os =>
+          ver_eqb hdr hv && opt_eqb Z.eqb err None
+          && list_eqb gclass_eqb classes (map (fun p => class_of (gate v (fst p))) (firstn (List.length os) items))
+      end
+  | CSessionF v known f hr stop items hdr err classes =>
+      let req := Build_request v hr stop (k_items items) in
+      let '(_, r, _) := session_answer unit bool k_handler (fun _ => known) f req tt in
       match r with
       | WireError hv reason => ver_eqb hdr hv && opt_eqb Z.eqb err (Some reason) && list_eqb gclass_eqb classes []
       | WireMessage hv os =>
@@ -114,6 +125,14 @@ Definition model_view (c : vcase) : vcase :=
       match r with
       | WireError hv reason => CSession v known hr stop items hv (Some reason) []
       | WireMessage hv os => CSession v known hr stop items hv None
+                               (map (fun p => class_of (gate v (fst p))) (firstn (List.length os) items))
+      end
+  | CSessionF v known f hr stop items _ _ _ =>
+      let req := Build_request v hr stop (k_items items) in
+      let '(_, r, _) := session_answer unit bool k_handler (fun _ => known) f req tt in
+      match r with
+      | WireError hv reason => CSessionF v known f hr stop items hv (Some reason) []
+      | WireMessage hv os => CSessionF v known f hr stop items hv None
                                (map (fun p => class_of (gate v (fst p))) (firstn (List.length os) items))
       end
   | CQuery v _ => CQuery v (query_ops v)
